@@ -483,6 +483,14 @@ func judge(cp crashPoint, r *recovered, where string) (v verdicts) {
 	}
 	if !r.start.OK() {
 		add(&v.c03, "startup-failed|"+failingCall(r.start.String())+"|"+cp.phase, fmt.Sprintf("%s: restart failed: %s", where, r.start))
+		if len(cp.acked) > 0 {
+			// C01/C04: a server that does not come up returns none of the acknowledged data
+			ph := cp.phase
+			if i := strings.Index(ph, "|lost:"); i >= 0 {
+				ph = ph[:i]
+			}
+			add(&v.c01, "unavailable|startup-failed|"+failingCall(r.start.String())+"|"+ph, fmt.Sprintf("%s: restart failed (%s): %d acknowledged write(s) are not served", where, r.start, len(cp.acked)))
+		}
 		return
 	}
 	if !r.second.OK() {
